@@ -31,7 +31,7 @@ ASSUMPTIONS = [
     "fake job processes (engine) create the job directories the way the task runner would (markers only)",
     "a second process that blocks or raises when entering a held experiment is accepted either way",
 ]
-MIN_CLASSES = {"quick": {"end:normal": 300, "end:exception": 200, "aborted-then-run": 150, "end:kill": 8, "second-process": 8}, "thorough": {"end:kill": 300}}
+MIN_CLASSES = {"quick": {"end:normal": 300, "end:exception": 200, "aborted-then-run": 150, "end:kill": 8, "second-process": 8}, "thorough": {"end:kill": 150}}
 NJOBS = 6
 
 
@@ -254,5 +254,5 @@ def run_with_second(ctx, ecase, scratch, ws, index, end_mode):
     return eng
 
 
-PARTS = [Part("index-histories", prop, strategy=cases, quick=1280, thorough=24000, shrink_budget=60)]
+PARTS = [Part("index-histories", prop, strategy=cases, quick=1280, thorough=12800, shrink_budget=60)]
 TIMEOUT = {"quick": 900, "thorough": 5400}
